@@ -30,7 +30,9 @@ RULE = (
     "binomial} x weighted or not; tensor_train on 2..4 dimensions x sizes {2,3} x rank {1,2,3} x real / complex; hmm on EVERY ordering "
     "of 1..4 variables x latent states {1,2,3} x input layer x per-variable kwargs with pairwise different arguments; fully_factorized "
     "likewise; logic circuits: all formulas of depth <= 3 over <= 3 variables from {literal, negated literal, top, bottom, decision "
-    "node, decomposable and (arity 2, 3)}, built directly and through a generated SDD file; each under (fold, optimize) x admissible "
+    "node, decomposable and (arity 2, 3)}, built directly and through a generated SDD file, plus deterministic disjunctions nested "
+    "directly under a disjunction / with literal children and multi-element SDD decisions whose primes are decisions (2 or 3 "
+    "elements, subs in {top, bottom, literal}); each under (fold, optimize) x admissible "
     "semirings; oracle: factor tensors read back from the symbolic parameters and contracted with np.einsum at EVERY index tuple; "
     "explicit summation over latent chains; per-variable layer type / arguments by variable id; truth table and model count. "
     "Non-trivial: >= 2 index tuples / assignments compared"
